@@ -1,18 +1,20 @@
-// Standard cuts shared by every harness module (DESIGN.md section 2, rule 4).
-// Included textually at the top of each harness file.
+// Standard cuts shared by every harness (DESIGN.md section 2, rule 4).  Included textually by
+// m_entry.rs (find side; re-exported from there) and xargs.rs.
+/// `alloc::fmt::format` → empty string: diagnostics only.
 #[allow(dead_code)]
-pub(crate) mod std_stubs {
-    /// `alloc::fmt::format` → empty string: diagnostics only.
-    pub fn fmt_stub(_args: std::fmt::Arguments<'_>) -> String { String::new() }
-    /// Kani's allocator cannot fail: the capacity-overflow / OOM handlers are unreachable.
-    pub fn he_stub(_e: std::collections::TryReserveError) -> ! { kani::assume(false); unreachable!() }
-    pub fn hae_stub(_l: std::alloc::Layout) -> ! { kani::assume(false); unreachable!() }
-    /// `std::rt::thread_cleanup`: Kani 0.68 ICEs on the catch_unwind intrinsic inside it.
-    pub fn noop_stub() {}
-    /// `<Stderr as Write>::write_fmt` → Ok(()): diagnostics only.
-    pub fn wf_stub(_s: &mut std::io::Stderr, _a: std::fmt::Arguments<'_>) -> std::io::Result<()> { Ok(()) }
-    pub fn eprint_stub(_a: std::fmt::Arguments<'_>) {}
-    pub fn keys_stub() -> std::hash::RandomState { unsafe { std::mem::transmute((1u64, 2u64)) } }
-}
-#[allow(unused_imports)]
-use std_stubs::*;
+pub fn fmt_stub(_args: std::fmt::Arguments<'_>) -> String { String::new() }
+/// Kani's allocator cannot fail: the capacity-overflow / OOM handlers are unreachable.
+#[allow(dead_code)]
+pub fn he_stub(_e: std::collections::TryReserveError) -> ! { kani::assume(false); unreachable!() }
+#[allow(dead_code)]
+pub fn hae_stub(_l: std::alloc::Layout) -> ! { kani::assume(false); unreachable!() }
+/// `std::rt::thread_cleanup`: Kani 0.68 ICEs on the catch_unwind intrinsic inside it.
+#[allow(dead_code)]
+pub fn noop_stub() {}
+/// `<Stderr as Write>::write_fmt` → Ok(()): diagnostics only.
+#[allow(dead_code)]
+pub fn wf_stub(_s: &mut std::io::Stderr, _a: std::fmt::Arguments<'_>) -> std::io::Result<()> { Ok(()) }
+#[allow(dead_code)]
+pub fn eprint_stub(_a: std::fmt::Arguments<'_>) {}
+#[allow(dead_code)]
+pub fn keys_stub() -> std::hash::RandomState { unsafe { std::mem::transmute((1u64, 2u64)) } }
